@@ -840,6 +840,24 @@ func (s *Server) proxy() (p *proxy.Proxy) {
 	return s.dnsProxy
 }
 
+// aaaaDisabled returns true if the resolving of AAAA requests is disabled.  It
+// is safe for concurrent use with the changes of DNS settings.
+func (s *Server) aaaaDisabled() (ok bool) {
+	s.serverLock.RLock()
+	defer s.serverLock.RUnlock()
+
+	return s.conf.AAAADisabled
+}
+
+// dnssecEnabled returns true if DNSSEC is enabled.  It is safe for concurrent
+// use with the changes of DNS settings.
+func (s *Server) dnssecEnabled() (ok bool) {
+	s.serverLock.RLock()
+	defer s.serverLock.RUnlock()
+
+	return s.conf.EnableDNSSEC
+}
+
 // Reconfigure applies the new configuration to the DNS server.
 //
 // TODO(a.garipov): This whole piece of API is weird and needs to be remade.
